@@ -15,6 +15,7 @@ def cliOps : List (String × (Json → Json)) := [
     match argvOf a with
     | "jws" :: "ver" :: rest => resJson (Cli.jwsVer realPrims w rest)
     | "jws" :: "sig" :: rest => resJson (Cli.jwsSig realPrims w rest [])
+    | "jwe" :: "enc" :: rest => resJson (Cli.jweEnc realPrims w rest ((argHex? a "rand").getD []))
     | "jwe" :: "dec" :: rest => resJson (Cli.jweDec realPrims w rest (List.replicate 600 0))
     | "jwk" :: "thp" :: rest => resJson (Cli.jwkThp realPrims w rest)
     | "jwk" :: "exc" :: rest => resJson (Cli.jwkExc realPrims w rest)
